@@ -28,6 +28,8 @@ from ..interp import ASparse
 from .. import facts as F
 
 PROP = 'C03'
+from . import lemmas as _lemmas
+LEMMAS = [_lemmas.PROTOCOL, _lemmas.SOLVE]
 RULES = {'B1': 'ghost formula satisfies the boundary row', 'B2': 'row == documented Robin relation with metric', 'B3': 'periodic wrap consistent with the periodic rows',
          'B3n': 'periodicity only on flagged axes', 'B4': 'blocks guarded by the flags of their own faces', 'B7': 'scale invariance in (a,b,c)',
          'B8': 'plotprofile boundary entries', 'B9': 'ghost rows cover all ghost cells, interior cells none', 'B6': 'ghost layer recomputed after every (re)computation'}
